@@ -7,7 +7,7 @@ import CifModel.Model.StoreStep
   tables as they are (they ARE the documented model of the container tree: ids, parent, code in both spellings) and replaces the
   three tables loop / loop_item / item_value, the row counters, the transactions and the savepoints by what the documentation talks
   about: a loop is a category, a list of items (normalised name, spelling) and a list of packets, each packet one value per item.
-  The tree `abs` of Model/StoreStep is a projection of `absS` (`absS_tree`, Lemmas/StoreSpecRefine).
+  The tree `abs` of Model/StoreStep is a projection of `absS` (`AState.tree`; `absS_tree`, Lemmas/StoreSpecWorld).
 
   `specStep`-functions below say what a call does to an `AState`; Lemmas/StoreSpecRefine proves, op by op, that the model's call
   commutes with `absS` and returns the same code, for a `Good` store and a valid handle (what `WOk` / `inContract` give).
@@ -50,6 +50,25 @@ def onLoop (a : AState) (cid num : Nat) (f : ALoop → ALoop) : AState :=
   { a with loops := a.loops.map (fun y => if y.cid == cid && y.num == num then f y else y) }
 
 end AState
+
+/-- a loop of the identity model as the tree model shows it: category, item names as spelled, packets -/
+def ALoop.toLoop (y : ALoop) : Loop := { category := y.category, names := y.items.map (·.2), packets := y.packets }
+
+mutual
+  /-- the container tree below `cid` (fuel bounds the nesting depth, as in `absContainer`) -/
+  def AState.treeContainer (a : AState) : Nat → Nat → Str → Container
+    | 0, _, code => .mk code [] []
+    | fuel + 1, cid, code =>
+      .mk code (AState.treeFrames a fuel (a.frames.filter (fun f => f.parent == cid)))
+               ((a.loops.filter (fun y => y.cid == cid)).map ALoop.toLoop)
+  def AState.treeFrames (a : AState) : Nat → List FrameRow → List Container
+    | _, [] => []
+    | fuel, f :: fs => AState.treeContainer a fuel f.cid f.nameOrig :: AState.treeFrames a fuel fs
+end
+
+/-- the tree-shaped documented model (`Cif` of Model/Types: what a dump through the public query API shows) as a projection of
+    the identity model: `(absS d).tree = abs d` (`absS_tree`, Lemmas/StoreSpecWorld) -/
+def AState.tree (a : AState) : Cif := a.blocks.map (fun b => a.treeContainer (a.frames.length + 1) b.cid b.nameOrig)
 
 def ALoop.hasItem (x : ALoop) (k : Str) : Bool := x.items.any (fun it => it.1 == k)
 
@@ -178,12 +197,11 @@ def AState.namesFresh (a : AState) (cid : Nat) : List Name → Bool
   | [] => true
   | n :: ns => !a.hasItem cid n.key && !ns.any (fun m => m.key == n.key) && namesFresh a cid ns
 
-/-- cif_container_create_loop: a new loop with the given category and items and no packet, last among the container's loops;
-    refused without names, with an invalid name, for a second scalar loop, and for a name the container already has -/
-def specCreateLoop (a : AState) (h : CH) (cat : Option Str) (names : List Name) : AState × Except Code LH :=
-  if names.isEmpty then (a, .error CIF_NULL_LOOP)
-  else if names.any (fun n => !n.valid) then (a, .error CIF_INVALID_ITEMNAME)
-  else if cat == some [] && a.loops.any (fun y => y.cid == h.id && y.category == some []) then (a, .error CIF_RESERVED_LOOP)
+/-- the part of cif_container_create_loop behind the checks of the name list (cif_container_create_loop_internal): a new loop with the
+    given category and items and no packet, last among the container's loops; refused for a second scalar loop and for a name the
+    container already has -/
+def specCreateLoopI (a : AState) (h : CH) (cat : Option Str) (names : List Name) : AState × Except Code LH :=
+  if cat == some [] && a.loops.any (fun y => y.cid == h.id && y.category == some []) then (a, .error CIF_RESERVED_LOOP)
   else match a.containers.find? (fun c => c.id == h.id) with
     | none => (a, .error CIF_INVALID_HANDLE)
     | some c =>
@@ -192,6 +210,13 @@ def specCreateLoop (a : AState) (h : CH) (cat : Option Str) (names : List Name) 
                      loops := a.loops ++ [{ cid := h.id, num := c.nextLoopNum, category := cat,
                                             items := names.map (fun n => (n.key, n.orig)), packets := [] }] },
             .ok { cid := h.id, loopNum := c.nextLoopNum, category := cat })
+
+/-- cif_container_create_loop: a new loop with the given category and items and no packet, last among the container's loops;
+    refused without names, with an invalid name, for a second scalar loop, and for a name the container already has -/
+def specCreateLoop (a : AState) (h : CH) (cat : Option Str) (names : List Name) : AState × Except Code LH :=
+  if names.isEmpty then (a, .error CIF_NULL_LOOP)
+  else if names.any (fun n => !n.valid) then (a, .error CIF_INVALID_ITEMNAME)
+  else specCreateLoopI a h cat names
 
 /-- cif_loop_add_item: the loop gains the item, last, with the given value in every packet; refused for an invalid name and for a
     name the container already has -/
@@ -244,6 +269,52 @@ def specRemoveItem (a : AState) (h : CH) (name : Option Name) : AState × Except
       | some x =>
         if x.items.length == 1 then ({ a with loops := a.loops.filter (fun y => !(y.cid == x.cid && y.num == x.num)) }, .ok ())
         else (a.onLoop x.cid x.num (fun y => y.dropItem n.key), .ok ())
+
+/-- the loop with value `v` for item `k` in every packet -/
+def ALoop.setColumn (x : ALoop) (k : Str) (v : V) : ALoop :=
+  { x with packets := x.packets.map (fun p => (x.items.zip p).map (fun e => if e.1.1 == k then v else e.2)) }
+
+/-- "adds it as a scalar", first half: the container's scalar loop (the one loop with category ""), created — without items or
+    packets yet — when the container has none -/
+def specScalarLoopOf (a : AState) (h : CH) : AState × Except Code LH :=
+  match specGetCategoryLoop a h (some []) with
+  | .error c => if c == CIF_NOSUCH_LOOP then specCreateLoopI a h (some []) [] else (a, .error c)
+  | .ok l => (a, .ok l)
+
+/-- "adds it as a scalar", second half: the item joins the scalar loop (as cif_loop_add_item: last, with the given value in the
+    loop's packet); a scalar loop that has no packet gets its one packet (as cif_loop_add_packet: the given value for the new item, the
+    unknown value for the loop's other items) -/
+def specAddScalarTail (a : AState) (l : LH) (n : Name) (v : V) : AState × Except Code Unit :=
+  match a.findLoop l.cid l.loopNum with
+  | none => (a, .error CIF_INTERNAL_ERROR)
+  | some x =>
+    match specAddItem a l (some n) (some v) with
+    | (a2, .error c) => (a2, .error c)
+    | (a2, .ok _) => if x.packets.isEmpty then specAddPacket a2 l [(n.key, v)] else (a2, .ok ())
+
+/-- "adds it as a scalar" (cif_container_add_scalar): the scalar loop of the container — created when absent — gains the item -/
+def specAddScalar (a : AState) (h : CH) (n : Name) (v : V) : AState × Except Code Unit :=
+  match specScalarLoopOf a h with
+  | (a1, .error c) => (a1, .error c)
+  | (a1, .ok l) => specAddScalarTail a1 l n v
+
+/-- cif_container_set_value: "Sets the value of the specified item in the specified container, or adds it as a scalar if it's not
+    already present in the container.  The given value is set for the item in every packet of the loop to which it belongs."
+    The loop to which the item belongs is what cif_container_get_item_loop finds (`specGetItemLoop`).  A NULL value stands for the
+    unknown value; an invalid (or NULL) name is CIF_INVALID_ITEMNAME; a call that fails changes nothing. -/
+def specSetValue (a : AState) (h : CH) (name : Option Name) (val : Option V) : AState × Except Code Unit :=
+  match name with
+  | none => (a, .error CIF_INVALID_ITEMNAME)
+  | some n =>
+    if !n.valid then (a, .error CIF_INVALID_ITEMNAME)
+    else match specGetItemLoop a h (some n) with
+      | .ok l => (a.onLoop l.cid l.loopNum (fun y => y.setColumn n.key (val.getD .unk)), .ok ())
+      | .error c =>
+        if c == CIF_NOSUCH_ITEM then
+          match specAddScalar a h n (val.getD .unk) with
+          | (a2, .ok _) => (a2, .ok ())
+          | (_, .error c') => (a, .error c')
+        else (a, .error c)
 
 /-- cif_container_get_all_loops: a handle on every loop of the container, in the container's order -/
 def specAllLoops (a : AState) (h : CH) : Except Code (List LH) :=
@@ -323,17 +394,30 @@ def specItRemove (a : AState) (it : AIter) : AState × AIter × Except Code Unit
 
 -- ---- histories on the documented model -----------------------------------------------------------------------------------------------
 
-/-- the world of a history, every managed CIF as the documented model; the handle tables are the caller's (a handle names an object),
-    the iterator table is carried along (the ops covered so far only ask it whether an iterator stands on a loop handle) -/
+/-- cif_loop_get_packets while another iterator is open on the same CIF: refused — "CIF_INVALID_HANDLE if the loop handle represents a
+    loop that does not (any longer) exist … CIF_ERROR in most other cases" (one iterator at a time per CIF) -/
+def specItOpenRefused (a : AState) (l : LH) : Code :=
+  match a.findLoop l.cid l.loopNum with
+  | none => CIF_INVALID_HANDLE
+  | some x => if x.items.isEmpty then CIF_INVALID_HANDLE else CIF_ERROR
+
+/-- the world of a history, every managed CIF as the documented model; the handle tables are the caller's (a handle names an object);
+    an open iterator is the abstract iterator `AIter` (its loop, how many packets it has passed, whether it has a current packet, the
+    CIF as it was when the iterator was created) -/
 structure AWorld where
   cifs : List (Option AState) := []
   chs : List (Option CHE) := []
   lhs : List (Option LHE) := []
-  its : List (Option ITE) := []
+  its : List (Option AITE) := []
 deriving Inhabited
 
+/-- an iterator-table entry as the documented model sees it: the iterator abstracted against the store of its CIF -/
+def absITE (cifs : List (Option Store)) (e : ITE) : AITE :=
+  { cif := e.cif, lh := e.lh, it := absIter e.it ((cifs.getD e.cif none).getD {}) }
+
 def absW (w : World) : AWorld :=
-  { cifs := w.cifs.map (fun c => c.map (fun s => absS s.db)), chs := w.chs, lhs := w.lhs, its := w.its }
+  { cifs := w.cifs.map (fun c => c.map (fun s => absS s.db)), chs := w.chs, lhs := w.lhs,
+    its := w.its.map (fun e => e.map (absITE w.cifs)) }
 
 namespace AWorld
 
@@ -348,7 +432,15 @@ def liveL (a : AWorld) (l : Nat) : Option (LHE × AState) :=
   | some e => match a.liveH e.ch with
     | none => none
     | some _ => (a.liveC e.cif).map (fun s => (e, s))
+def liveI (a : AWorld) (i : Nat) : Option (AITE × AState) :=
+  match a.its.getD i none with
+  | none => none
+  | some e => match a.liveL e.lh with
+    | none => none
+    | some _ => (a.liveC e.cif).map (fun s => (e, s))
 def setCif (a : AWorld) (c : Nat) (s : AState) : AWorld := { a with cifs := a.cifs.set c (some s) }
+/-- an iterator is open on CIF `c` -/
+def cifBusy (a : AWorld) (c : Nat) : Bool := a.its.any (fun e => match e with | some e => e.cif == c | none => false)
 def itOnCh (a : AWorld) (h : Nat) : Bool :=
   a.its.any (fun e => match e with
     | some e => (match a.lhs.getD e.lh none with | some le => le.ch == h | none => false)
@@ -357,15 +449,13 @@ def itOnLh (a : AWorld) (l : Nat) : Bool := a.its.any (fun e => match e with | s
 
 end AWorld
 
-/-- the ops `specStep` covers so far -/
-def Op.covered : Op → Bool
-  | .addPkt .. | .setCat .. | .ldestroy .. => true
-  | .names .. | .catLoop .. | .itemLoop .. | .prune .. | .mkBlock .. | .mkFrame .. | .mkLoop .. | .addItem .. | .getVal .. | .rmItem .. | .loops .. => true
-  | .cifNew | .cifDel .. | .getBlock .. | .blocks .. | .getFrame .. | .frames .. | .code .. | .isBlock .. | .getCat .. | .cdestroy .. => true
-  | _ => false
+/-- the ops `specStep` covers: all 31 (kept so that earlier statements `op.covered = true` stay meaningful: `Op.covered_all`) -/
+def Op.covered : Op → Bool := fun _ => true
+
+theorem Op.covered_all (op : Op) : op.covered = true := rfl
 
 open World in
-/-- one call of a history on the documented model; `none` for an op not yet covered -/
+/-- one call of a history on the documented model (always `some`: every op is covered) -/
 def specStep (a : AWorld) : Op → Option (AWorld × Result)
   | .addPkt l p =>
     match a.liveL l with
@@ -522,9 +612,53 @@ def specStep (a : AWorld) : Op → Option (AWorld × Result)
           match specGetNames st l with
           | .ok ns => (l.category, some (ns.map (·.2)))
           | .error _ => (l.category, none))) })
-  | _ => none
+  | .setVal h n v =>
+    match a.liveH h with
+    | none => some (a, skipped)
+    | some (e, st) =>
+      let (st1, r) := specSetValue st e.h n v
+      some (a.setCif e.cif st1, { rc := some (codeOf r) })
+  | .itOpen l =>
+    match a.liveL l with
+    | none => some ({ a with its := a.its ++ [none] }, skipped)
+    | some (e, st) =>
+      -- one iterator at a time per CIF: a further cif_loop_get_packets is refused and changes nothing
+      if a.cifBusy e.cif then some ({ (a.setCif e.cif st) with its := a.its ++ [none] }, { rc := some (specItOpenRefused st e.h) })
+      else
+        let r := specItOpen st e.h
+        some ({ (a.setCif e.cif st) with its := a.its ++ [match r with | .ok it => some { cif := e.cif, lh := l, it := it } | .error _ => none] },
+              { rc := some (codeOf r) })
+  | .itNext i =>
+    match a.liveI i with
+    | none => some (a, skipped)
+    | some (e, st) =>
+      let (it', r) := specItNext st e.it
+      some ({ a with its := a.its.set i (some { e with it := it' }) },
+            { rc := some (codeOf r), out := match r with | .ok p => .packet p | .error _ => .unit })
+  | .itUpd i p =>
+    match a.liveI i with
+    | none => some (a, skipped)
+    | some (e, st) =>
+      let (st1, r) := specItUpdate st e.it p
+      some (a.setCif e.cif st1, { rc := some (codeOf r) })
+  | .itRem i =>
+    match a.liveI i with
+    | none => some (a, skipped)
+    | some (e, st) =>
+      let (st1, it', r) := specItRemove st e.it
+      some ({ (a.setCif e.cif st1) with its := a.its.set i (some { e with it := it' }) }, { rc := some (codeOf r) })
+  | .itClose i =>
+    -- cif_pktitr_close: what was done through the iterator stays; the iterator is gone
+    match a.liveI i with
+    | none => some (a, skipped)
+    | some (e, st) => some ({ (a.setCif e.cif st) with its := a.its.set i none }, { rc := some CIF_OK })
+  | .itAbort i =>
+    -- cif_pktitr_abort: the CIF is what it was when the iterator was created; the iterator is gone
+    match a.liveI i with
+    | none => some (a, skipped)
+    | some (e, _) => some ({ (a.setCif e.cif e.it.start) with its := a.its.set i none }, { rc := some CIF_OK })
 
-/-- a whole history on the documented model (`none` as soon as an op is not covered) -/
+/-- a whole history on the documented model -/
 def specRun (a : AWorld) : List Op → Option (AWorld × List Result)
   | [] => some (a, [])
   | op :: ops =>
